@@ -1,6 +1,7 @@
 """Checks of the extraction pipeline (C01-C05, C10, C16 ...): L1 model checking of spec/Shexer.tla,
 L3 validation of real executions by spec/Trace_Shexer.tla, pinned reproducers."""
 import random
+import re
 from harness import gen, runner, tlc, common, rdfmodel as M
 
 ALL_WANT = ["C01", "C02", "C03", "C05", "C10"]
@@ -231,6 +232,9 @@ def strict_cases(rnd, n, prefix):
                 T.insert(rnd.randint(0, len(T)), t)
         cfg = dict(allCompliant=True, keepLess=True, thr=[0, 1], discardUseless=rnd.random() < .5,
                    allowOpt=rnd.random() < .6, disableExact=rnd.random() < .4, inverse=inv)
+        main = sorted({o[1] for s_, p_, o in T if p_ == M.RDF_TYPE and o[1].startswith(M.EX + "C")})
+        if main and rnd.random() < .35:       # target classes: the schema's own classes, not the second types some instances carry
+            cfg.update(mode="classes", targets=main)
         cases.append(via_channel(rnd, gen.case("%s%d" % (prefix, i), T, **cfg), T, p=.25))
     return cases
 
@@ -271,6 +275,7 @@ def check_c01(out, tier):
         inc.append(gen.case("c01i%d" % i, gen.incoming_graph(rnd), **cfg))
     run_and_judge(out, inc, ["C01"], mine, label="incoming links from typed / untyped, IRI / blank-node subjects")
     run_and_judge(out, [gen.hub_case(rnd, "c01h%d" % i) for i in range(3 * k)], ["C01"], mine, label="one instance with > 1000 values / incoming arcs")
+    run_and_judge(out, [gen.partly_typed_case(rnd, "c01t%d" % i) for i in range(40 * k)], ["C01"], mine, label="IRI values partly instances of a shape")
     pinned_cases(out, "C01", ["C01"], mine)
     from harness import suite_traces, simulate
     simulate.replay(out, L2_BEHAVIOURS[tier], ["C01"], mine)
@@ -279,6 +284,19 @@ def check_c01(out, tier):
             "object kinds, 0-3 values) x inference switches x thresholds x target modes (all / classes / shape map) x "
             "report modes x decimals; non-trivial = >= 2 instantiation triples and >= 1 other triple, distinct by "
             "hash of (graph, configuration)")
+
+
+def gen_small_boundary(rnd):
+    """one class of 2-6 instances, two features held by k of them: threshold exactly k/n"""
+    n = rnd.randint(2, 6)
+    nodes = [M.iri(M.EX + "w%d" % i) for i in range(n)]
+    T = [(x, M.RDF_TYPE, M.iri(M.EX + "W")) for x in nodes]
+    ks = [rnd.randint(1, n), rnd.randint(1, n)]
+    for j, kk in enumerate(ks):
+        for x in rnd.sample(nodes, kk):
+            T.append((x, M.EX + "f%d" % j, M.lit("v")))
+    rnd.shuffle(T)
+    return T, [[kk, n] for kk in ks]
 
 
 def check_c02(out, tier):
@@ -294,6 +312,16 @@ def check_c02(out, tier):
         for j, thr in enumerate(thrs[:2]):
             wide.append(gen.case("c02w%d_%d" % (i, j), T, thr=thr, inverse=rnd.random() < .4, keepLess=rnd.random() < .7))
     run_and_judge(out, wide, ["C02"], mine, label="wide class, threshold exactly k/n")
+    # the same Shaper asked first for a threshold a hair above (or below) k/n, then for k/n itself: the second answer is the one for k/n
+    import math
+    near = []
+    for i in range(16 * k):
+        T, thrs = gen.boundary_graph(rnd) if i % 2 else gen_small_boundary(rnd)
+        c = gen.case("c02n%d" % i, T, thr=thrs[0], inverse=rnd.random() < .3, keepLess=rnd.random() < .7)
+        f = thrs[0][0] / thrs[0][1]
+        c["before"] = [rnd.choice([math.nextafter(f, 2.0), f * (1 + 4e-10), f + 1e-12, math.nextafter(f, -1.0)])]
+        near.append(c)
+    run_and_judge(out, near, ["C02"], mine, label="threshold k/n after a call with a threshold a hair away")
     run_and_judge(out, [gen.chain_case(rnd, "c02k%d" % i) for i in range(30 * k)], ["C02"], mine, label="removal cascades")
     run_and_judge(out, [gen.fan_case(rnd, "c02f%d" % i) for i in range(30 * k)], ["C02"], mine, label="several shapes emptied in one round")
     run_and_judge(out, [gen.hub_case(rnd, "c02h%d" % i) for i in range(4 * k)], ["C02"], mine, label="one instance with > 1000 values / incoming arcs")
@@ -354,6 +382,24 @@ def check_c04(out, tier):
         if c["cfg"]["format"] == "shacl":
             c["cfg"]["examples"] = c["cfg"]["examples"] if rnd.random() < .5 else ""
     run_and_judge(out, opts, [], mine, crash_is_mine=True)
+    # every predicate of the instances in an ignored namespace (the instantiation property too): instances without a profile -
+    # and a second call on the same Shaper
+    allign = []
+    for i in range(24 * k):
+        T = gen.general_graph(rnd, max_nodes=5, rich_literals=False, bnodes=rnd.random() < .3, hierarchy=False)
+        nss = sorted({re.match(r"^(.*[/#])", p_).group(1) for _s, p_, _o in T})
+        if rnd.random() < .4 and len(nss) > 1:
+            nss = nss[:-1]
+        cfg = gen.switches(rnd, ors=True)
+        cfg.update(ignoreNs=nss, removeEmpty=rnd.random() < .8, format=rnd.choice(["shexc", "shexc", "shacl"]))
+        if rnd.random() < .4:
+            cl = gen.classes_of(T)
+            if cl:
+                cfg.update(mode="classes", targets=cl[:1])
+        c = gen.case("c04i%d" % i, T, **cfg)
+        c["before"] = [rnd.choice(gen.THRESHOLDS) for _ in range(rnd.randint(1, 2))]
+        allign.append(c)
+    run_and_judge(out, allign, [], mine, crash_is_mine=True, label="all predicates ignored, repeated calls")
     pinned_cases(out, "C04", [], mine, crash_is_mine=True)
     from harness import simulate
     simulate.replay(out, L2_BEHAVIOURS[tier], [], mine, crash_is_mine=True)
@@ -500,6 +546,7 @@ def extension_instances_file(out, rnd, n):
             cfg["cap"] = rnd.randint(1, 2)
         c = gen.case("c10i%d" % i, T, **cfg)
         c["cfg"]["instDoc"] = M.to_json_graph(inst)
+        c["instGraphAs"] = rnd.choice(["file", "raw", "files", "rdflib"])
         cases.append(c)
     results = runner.run_cases(cases)
     verdicts, _stats = judge(cases, results, ["C01", "C02", "C10", "drift"])
@@ -533,6 +580,9 @@ def check_c10(out, tier):
         cfg["instProp"] = ip
         classes = gen.classes_of(T, ip)
         cfg["nsDict"] = gen.NSDICT + [["http://www.wikidata.org/prop/direct/", "wdt"]]
+        if rnd.random() < .3:       # the user may bind the empty prefix: ':C0', ':isA' are prefixed names like any other
+            cfg["nsDict"] = [[M.EX, ""]] + cfg["nsDict"][1:]
+        cfg["instPropSpelling"] = rnd.choice(["full", "full", "prefixed"])
         if r < .25 or not classes:
             cfg["mode"] = "all"
         elif r < .55:
